@@ -44,6 +44,7 @@ func VerifC02Graph() {
 		names[i] = sorted[k]
 	}
 	dep := make([][]bool, n) // dep[j][i]: task j depends on task i
+	edges, maxEdges := 0, verifBound("maxedges", 1000) // maxedges: only relations with at most that many edges
 	tasks := map[string]definition.TaskDef{}
 	for j := 0; j < n; j++ {
 		dep[j] = make([]bool, n)
@@ -59,7 +60,11 @@ func VerifC02Graph() {
 					continue
 				}
 			}
+			if edges >= maxEdges {
+				continue
+			}
 			if verifChoose("dep", 2) == 1 {
+				edges++
 				dep[j][i] = true
 				on = append(on, names[i])
 				// a dependency may be listed twice (the loader accepts that): same relation
